@@ -107,6 +107,7 @@ fn derive_struct_tostring(
     if !struct_def.generics.is_empty() {
         return Err(generic_not_supported("struct", &struct_def.name, attr_ptr));
     }
+    check_struct_fields(struct_def, TO_STRING_TRAIT, attr_ptr)?;
 
     let method = ast::Fn {
         attrs: Vec::new(),
@@ -137,6 +138,7 @@ fn derive_enum_tostring(
     if !enum_def.generics.is_empty() {
         return Err(generic_not_supported("enum", &enum_def.name, attr_ptr));
     }
+    check_enum_payloads(enum_def, TO_STRING_TRAIT, attr_ptr)?;
 
     let method = ast::Fn {
         attrs: Vec::new(),
@@ -168,6 +170,7 @@ fn derive_struct_tojson(
             attr_ptr,
         ));
     }
+    check_struct_fields(struct_def, TO_JSON_TRAIT, attr_ptr)?;
 
     let method = ast::Fn {
         attrs: Vec::new(),
@@ -198,6 +201,7 @@ fn derive_enum_tojson(
     if !enum_def.generics.is_empty() {
         return Err(generic_not_supported_json("enum", &enum_def.name, attr_ptr));
     }
+    check_enum_payloads(enum_def, TO_JSON_TRAIT, attr_ptr)?;
 
     let method = ast::Fn {
         attrs: Vec::new(),
@@ -652,6 +656,71 @@ fn ty_for_ident(name: &AstIdent) -> ast::TypeExpr {
     ast::TypeExpr::TCon {
         path: ast::Path::from_ident(name.clone()),
     }
+}
+
+/// What kind of type nobody can give a `to_string` / `to_json` method: tuples, arrays, function
+/// types, `dyn` types and the builtin containers. A named type may have the method (derived or
+/// written by hand); whether it has is the type checker's business.
+fn unrenderable_kind(ty: &ast::TypeExpr) -> Option<&'static str> {
+    match ty {
+        ast::TypeExpr::TTuple { .. } => Some("a tuple type"),
+        ast::TypeExpr::TArray { .. } => Some("an array type"),
+        ast::TypeExpr::TFunc { .. } => Some("a function type"),
+        ast::TypeExpr::TDyn { .. } => Some("a dyn type"),
+        ast::TypeExpr::TApp { ty, .. } => match ty.as_ref() {
+            ast::TypeExpr::TCon { path } => match path.last_ident().map(|ident| ident.0.as_str()) {
+                Some("Vec") if path.len() == 1 => Some("a Vec type"),
+                Some("Ref") if path.len() == 1 => Some("a Ref type"),
+                _ => None,
+            },
+            _ => None,
+        },
+        _ => None,
+    }
+}
+
+fn check_struct_fields(
+    struct_def: &StructDef,
+    trait_name: &str,
+    attr_ptr: &MySyntaxNodePtr,
+) -> Result<(), Diagnostic> {
+    for (field_name, field_ty) in struct_def.fields.iter() {
+        if let Some(kind) = unrenderable_kind(field_ty) {
+            return Err(Diagnostic::new(
+                Stage::other(DERIVE_STAGE),
+                Severity::Error,
+                format!(
+                    "`#[derive({})]` is not supported for struct `{}`: field `{}` has {}",
+                    trait_name, struct_def.name.0, field_name.0, kind
+                ),
+            )
+            .with_range(attr_ptr.text_range()));
+        }
+    }
+    Ok(())
+}
+
+fn check_enum_payloads(
+    enum_def: &EnumDef,
+    trait_name: &str,
+    attr_ptr: &MySyntaxNodePtr,
+) -> Result<(), Diagnostic> {
+    for (variant_name, payload) in enum_def.variants.iter() {
+        for payload_ty in payload.iter() {
+            if let Some(kind) = unrenderable_kind(payload_ty) {
+                return Err(Diagnostic::new(
+                    Stage::other(DERIVE_STAGE),
+                    Severity::Error,
+                    format!(
+                        "`#[derive({})]` is not supported for enum `{}`: variant `{}` holds {}",
+                        trait_name, enum_def.name.0, variant_name.0, kind
+                    ),
+                )
+                .with_range(attr_ptr.text_range()));
+            }
+        }
+    }
+    Ok(())
 }
 
 fn generic_not_supported(kind: &str, name: &AstIdent, attr_ptr: &MySyntaxNodePtr) -> Diagnostic {
